@@ -95,6 +95,9 @@ pub fn judge(plan: &ExecPlan, stats: &mut Stats, use_cache: bool) -> (Vec<(Strin
     if r.shared_locks > 0 {
         stats.inc("probe:shared_lock_contended");
     }
+    if r.clock_reads > 0 {
+        stats.add("probe:clock_reads", r.clock_reads);
+    }
     if r.contended_lazies > 0 {
         stats.inc("probe:lazy_init_contended");
     }
@@ -220,6 +223,7 @@ pub fn draw_plan(rng: &mut Rng, index: u64, tier: Tier) -> ExecPlan {
         sched_seed: rng.next_u64(),
         fastrand_seed: rng.next_u64(),
         yield_in_loader: rng.chance(1, 2),
+        clock: Some(draw_clock(rng)),
         tasks,
     }
 }
